@@ -4,6 +4,7 @@ import (
 	"fmt"
 	"runtime/debug"
 	"strings"
+	"sync"
 	"testing"
 	"time"
 
@@ -126,6 +127,44 @@ func TestPropFilterValues(t *testing.T) {
 			line := fmt.Sprintf("%s 1 %d", name, ts)
 			run(fmt.Sprintf("dispatching %q", line), func() error { tab.Dispatch([]byte(line)); return nil })
 		}
+		// one case in eight: the same kind of lines from four input connections at once, each with fresh names of its own
+		// (what the relay keeps per name or per filter is then read and written from several goroutines)
+		burst := rapid.IntRange(0, 7).Draw(t, "concurrent-burst") == 0
+		if burst {
+			var names []string
+			for i := 0; i < 3; i++ {
+				name := gen.Name(t, "bname")
+				if len(used) > 0 && rapid.Bool().Draw(t, "bmatching") {
+					name = gen.CleanName(gen.SampleMatch(t, rapid.SampledFrom(used).Draw(t, "bfrom")))
+				}
+				names = append(names, name)
+			}
+			crashed := make(chan string, 8)
+			var wg sync.WaitGroup
+			for g := 0; g < 4; g++ {
+				wg.Add(1)
+				go func(g int) {
+					defer wg.Done()
+					defer func() {
+						if r := recover(); r != nil {
+							crashed <- fmt.Sprintf("panic: %v\n%s", r, debug.Stack())
+						}
+					}()
+					for r := 0; r < 60; r++ {
+						for _, n := range names {
+							tab.Dispatch([]byte(fmt.Sprintf("%s.g%d.%d 1 %d", n, g, r, time.Now().Unix())))
+						}
+					}
+				}(g)
+			}
+			wg.Wait()
+			select {
+			case c := <-crashed:
+				t.Fatalf("concurrent input (4 connections, names derived from %q) crashed the relay: %s\ncommands so far: %q", names, c, cmds)
+			default:
+			}
+		}
+		rec.Class(fmt.Sprintf("concurrent-burst=%v", burst), 1)
 		rec.Case(strings.Join(cmds, " ; "), soups > 0 && accepted > nl && refused > 0, fmt.Sprintf("accepted-cmds>0=%v", accepted > nl), fmt.Sprintf("refused>0=%v", refused > 0))
 	})
 }
